@@ -67,13 +67,13 @@ var boolSpecs = []struct{ astConst, op string }{
 
 // constSwitch is a switch over an enum-typed tag whose arms assign one constant.
 type constSwitch struct {
-	pos      token.Pos
-	tagType  string // named type of the tag, e.g. ast.OperatorNumber
-	armNode  string // enclosing type-switch arm: *ast.BinOp …
-	fn       string
-	cases    map[string]string // case constant name -> assigned constant name
-	casePos  map[string]token.Pos
-	hasDeflt bool
+	pos        token.Pos
+	tagType    string // named type of the tag, e.g. ast.OperatorNumber
+	armNode    string // enclosing type-switch arm: *ast.BinOp …
+	fn         string
+	cases      map[string]string // case constant name -> assigned constant name
+	casePos    map[string]token.Pos
+	hasDeflt   bool
 	dfltPanics bool
 }
 
@@ -437,13 +437,13 @@ func runC01R1(c *Ctx, r *Rep) {
 
 // dispatch attempt found in an arithmetic API function
 type attempt struct {
-	param   int // index of the parameter asserted
-	iface   string
-	method  string
-	args    []int // parameter indices passed (-1 unknown)
-	guards  []string
-	pos     token.Pos
-	order   int
+	param  int // index of the parameter asserted
+	iface  string
+	method string
+	args   []int // parameter indices passed (-1 unknown)
+	guards []string
+	pos    token.Pos
+	order  int
 }
 
 type apiShape struct {
